@@ -6,6 +6,7 @@ import (
 	"crypto/sha256"
 	"encoding/binary"
 	"encoding/hex"
+	"encoding/json"
 	"fmt"
 	"image/color"
 	"math/rand"
@@ -201,3 +202,5 @@ func isNilIface(v any) bool {
 	rv := reflectValueOf(v)
 	return rv
 }
+
+func jsonMarshal(v any) ([]byte, error) { return json.Marshal(v) }
